@@ -10,7 +10,9 @@ import ast
 from .model import norm, NotConst
 
 UNKNOWN = None
-_PURE = {"range": range, "min": min, "max": max, "abs": abs, "int": int, "bool": bool, "len": len, "divmod": divmod}
+_PURE = {"range": range, "min": min, "max": max, "abs": abs, "int": int, "bool": bool, "len": len, "divmod": divmod,
+         "enumerate": lambda *a: list(enumerate(*a)), "reversed": lambda x: list(reversed(x)), "list": list, "tuple": tuple,
+         "sorted": sorted, "zip": lambda *a: list(zip(*a)), "sum": sum, "bytes": bytes}
 
 
 class Evaluator:
@@ -65,6 +67,17 @@ class Evaluator:
             return v
         if isinstance(node, ast.IfExp):
             return self.value(node.body, env) if self.value(node.test, env) else self.value(node.orelse, env)
+        if isinstance(node, ast.Subscript) and isinstance(node.ctx, ast.Load):
+            base = self.value(node.value, env)
+            try:
+                if isinstance(node.slice, ast.Slice):
+                    lo = self.value(node.slice.lower, env) if node.slice.lower is not None else None
+                    hi = self.value(node.slice.upper, env) if node.slice.upper is not None else None
+                    stp = self.value(node.slice.step, env) if node.slice.step is not None else None
+                    return base[lo:hi:stp]
+                return base[self.value(node.slice, env)]
+            except (TypeError, IndexError, KeyError) as e:
+                raise NotConst(str(e))
         if isinstance(node, ast.Name) and isinstance(node.ctx, ast.Load):
             # an explaining local: the single assignment that defines it, when nothing it mentions changes in between
             d = _single_local_def(node)
@@ -186,21 +199,20 @@ def _single_local_def(name_node):
             return None
         p = getattr(p, "_parent", None)
     # a container that is filled after its creation is not described by its defining expression
-    if isinstance(st.value, (ast.List, ast.Dict, ast.Set, ast.ListComp, ast.DictComp, ast.SetComp)) or \
-            (isinstance(st.value, ast.Call) and norm(st.value.func) in ("list", "dict", "set", "bytearray", "collections.OrderedDict")):
-        return None
+    container = isinstance(st.value, (ast.List, ast.Dict, ast.Set, ast.ListComp, ast.DictComp, ast.SetComp)) or \
+        (isinstance(st.value, ast.Call) and norm(st.value.func) in ("list", "dict", "set", "bytearray", "collections.OrderedDict"))
     for n in ast.walk(fn):
         if isinstance(n, ast.Call) and isinstance(n.func, ast.Attribute) and isinstance(n.func.value, ast.Name) and n.func.value.id == name_node.id \
-                and st.lineno < n.lineno <= name_node.lineno:
-            return None         # a method was called on it in between (may change it)
+                and (container or st.lineno < n.lineno <= name_node.lineno):
+            return None         # a method is called on it (may change it): in between, or anywhere for a container
         if isinstance(n, ast.Subscript) and isinstance(n.ctx, (ast.Store, ast.Del)) and isinstance(n.value, ast.Name) and n.value.id == name_node.id:
             return None
     mentioned = {norm(x) for x in ast.walk(st.value) if isinstance(x, (ast.Name, ast.Attribute))}
     for n in ast.walk(fn):
-        if isinstance(n, (ast.Name, ast.Attribute)) and isinstance(n.ctx, (ast.Store, ast.Del)) and st.lineno < getattr(n, "lineno", 0) <= name_node.lineno:
+        if isinstance(n, (ast.Name, ast.Attribute)) and isinstance(n.ctx, (ast.Store, ast.Del)) and st.lineno < getattr(n, "lineno", 0) < name_node.lineno:
             if norm(n) in mentioned:
                 return None
-        if isinstance(n, ast.AugAssign) and st.lineno < n.lineno <= name_node.lineno and norm(n.target) in mentioned:
+        if isinstance(n, ast.AugAssign) and st.lineno < n.lineno < name_node.lineno and norm(n.target) in mentioned:
             return None
     return st.value
 
